@@ -212,6 +212,8 @@ def normal(x: Any) -> Any:
     if not isinstance(x, dict):
         return x
     out = {k: normal(v) for k, v in x.items()}
+    if out.get("k") == "infix" and out.get("op") == "<>":
+        out["op"] = "!="         # two spellings of one operator
     if out.get("k") == "slice" and out.get("st") == []:
         out["st"] = [1]          # an omitted step is the step 1 (RFC 9535 2.3.4.2.2); the canonical string form writes it
     if "sels" in out:
